@@ -19,7 +19,7 @@ theorem serialize_str_inv (v : PVal) (s : String) (h : serialize v = .ok (.str s
   | fset l => cases hl : serL l <;> simp [serialize, hl, pure, Except.pure, bind, Except.bind] at h
   | set l => cases hl : serL l <;> simp [serialize, hl, pure, Except.pure, bind, Except.bind] at h
   | dict d =>
-    cases hk : strKeys d <;> cases hv : serV d <;> cases hkk : serK d <;>
+    cases hk : plainKeys d <;> cases hv : serV d <;> cases hkk : serK d <;>
       simp [serialize, hk, hv, hkk, pure, Except.pure, bind, Except.bind] at h
   | obj c ps => cases hl : serF ps <;> simp [serialize, hl, pure, Except.pure, bind, Except.bind] at h
   | callable n b => cases b <;> simp [serialize, pure, Except.pure, throw, throwThe, MonadExceptOf.throw] at h
@@ -145,48 +145,33 @@ theorem seqFields_zip (env : Env) : ∀ (ks : List String) (vs : List J) (ws : L
       obtain ⟨w, ws', rfl, hj, ht⟩ := deserL_cons_ok env j vs ws h
       simp [deserR, seqFields, hj, seqFields_zip env ks vs ws' (by simpa using hl) ht]
 
-/-- a str-keyed mapping: `{key: serialize_value(val)}` has an identifier-like string under `k` only if the mapping
-    itself has that string under `k` -/
-theorem sdict_lookup : ∀ (d : List (PVal × PVal)) (ks : List String) (vs : List J),
-    strKeys d = some ks → serV d = .ok vs → ∀ k s, (ks.zip vs).lookup k = some (.str s) →
-      d.lookup (PVal.atom (.str k)) = some (PVal.atom (.str s))
-  | [], ks, vs, hk, hv, k, s, h => by
-      simp [strKeys] at hk; subst hk; simp at h
-  | (k0, v0) :: t, ks, vs, hk, hv, k, s, h => by
-      cases k0 with
-      | atom a =>
-        cases a with
-        | str s0 =>
-          simp only [strKeys, Option.map_eq_some_iff] at hk
-          obtain ⟨ks', hk1, rfl⟩ := hk
-          simp only [serV] at hv
-          cases hv0 : serialize v0 with
-          | error e => simp [hv0] at hv
-          | ok j0 =>
-            cases hvt : serV t with
-            | error e => simp [hv0, hvt] at hv
-            | ok vs' =>
-              simp [hv0, hvt] at hv
-              subst hv
-              simp only [List.zip_cons_cons, List.lookup] at h ⊢
-              by_cases hkk : k = s0
-              · subst hkk
-                simp at h
-                subst h
-                have := serialize_str_inv v0 s hv0
-                subst this
-                simp
-              · have h1 : (k == s0) = false := by simpa using hkk
-                have h2 : (PVal.atom (Atom.str k) == PVal.atom (Atom.str s0)) = false := by
-                  simpa using hkk
-                rw [h1] at h
-                rw [h2]
-                exact sdict_lookup t ks' vs' hk1 hvt k s h
-        | none => simp [strKeys] at hk
-        | bool _ => simp [strKeys] at hk
-        | int _ => simp [strKeys] at hk
-        | float _ => simp [strKeys] at hk
-      | _ => simp [strKeys] at hk
+theorem lookup_zip_none {β} : ∀ (ks : List String) (vs : List β) (k : String), k ∉ ks → (ks.zip vs).lookup k = none
+  | [], _, _, _ => by simp
+  | _ :: _, [], _, _ => by simp
+  | k0 :: ks, v :: vs, k, h => by
+      have hne : (k == k0) = false := by
+        have : k ≠ k0 := fun e => h (by simp [e])
+        simpa using this
+      simp only [List.zip_cons_cons, List.lookup, hne]
+      exact lookup_zip_none ks vs k (fun hm => h (List.mem_cons_of_mem _ hm))
+
+theorem plainKeys_spec (d : List (PVal × PVal)) (ks : List String) (h : plainKeys d = some ks) :
+    strKeys d = some ks ∧ ∀ k ∈ reservedKeys, k ∉ ks := by
+  unfold plainKeys at h
+  cases hs : strKeys d with
+  | none => simp [hs] at h
+  | some ks' =>
+    simp only [hs] at h
+    split at h
+    · simp at h
+    · rename_i hany
+      simp at h
+      subst h
+      refine ⟨rfl, ?_⟩
+      intro k hk hmem
+      apply hany
+      simp only [List.any_eq_true]
+      exact ⟨k, hmem, by simpa using hk⟩
 
 theorem sdict_rebuild : ∀ (d : List (PVal × PVal)) (ks : List String), strKeys d = some ks →
     (ks.zip (d.map (·.2))).map (fun p => (PVal.atom (.str p.1), p.2)) = d
@@ -210,21 +195,10 @@ theorem strKeys_length (d : List (PVal × PVal)) (ks : List String) (h : strKeys
   have := congrArg List.length (strKeys_spec d ks h)
   simpa using this.symm
 
-theorem hasIdent_false_of_sdict (d : List (PVal × PVal)) (ks : List String) (vs : List J)
-    (hk : strKeys d = some ks) (hv : serV d = .ok vs) (hr : reservedHit d = false) (k : String)
-    (hmem : k ∈ reservedKeys) : hasIdent (ks.zip vs) k = false := by
+theorem hasIdent_false_of_plain (d : List (PVal × PVal)) (ks : List String) (vs : List J)
+    (hk : plainKeys d = some ks) (k : String) (hmem : k ∈ reservedKeys) : hasIdent (ks.zip vs) k = false := by
   unfold hasIdent
-  cases hl : (ks.zip vs).lookup k with
-  | none => rfl
-  | some j =>
-    cases j with
-    | str s =>
-      have := sdict_lookup d ks vs hk hv k s hl
-      simp only [reservedHit, List.any_eq_false] at hr
-      have h2 := hr k hmem
-      simp only [this] at h2
-      simpa using h2
-    | _ => rfl
+  rw [lookup_zip_none ks vs k ((plainKeys_spec d ks hk).2 k hmem)]
 
 /-- the value reloads to itself -/
 def RT (env : Env) (v : PVal) : Prop := ∃ j, serialize v = .ok j ∧ deserialize env j = .ok v
@@ -234,6 +208,7 @@ theorem ident_Decimal : isScopedIdent "Decimal" = true := by decide +kernel
 theorem ident_tuple : isScopedIdent "tuple" = true := by decide +kernel
 theorem ident_frozenset : isScopedIdent "frozenset" = true := by decide +kernel
 theorem ident_dict : isScopedIdent "dict" = true := by decide +kernel
+theorem ident_set : isScopedIdent "set" = true := by decide +kernel
 
 theorem rt_atom (env : Env) (a : Atom) : RT env (.atom a) := by
   cases a <;> exact ⟨_, rfl, rfl⟩
@@ -296,7 +271,14 @@ theorem rt_val (env : Env) : ∀ v : PVal, Representable env v = true → RT env
       simp only [deserialize, typed_list_rt env "frozenset" js l h2]
       have hd : dedup l [] = l := by simpa using dedup_nodup l [] (by simpa using hn)
       simp [deserDict, deserTyped, hasIdent, identAt, List.lookup, ident_frozenset, asList, hh, hd]
-  | .set l, h => by simp [Representable] at h
+  | .set l, h => by
+      simp only [Representable, Bool.and_eq_true, decide_eq_true_eq] at h
+      obtain ⟨⟨hr, hh⟩, hn⟩ := h
+      obtain ⟨js, h1, h2⟩ := rt_list env l hr
+      refine ⟨_, by simp [serialize, h1]; rfl, ?_⟩
+      simp only [deserialize, typed_list_rt env "set" js l h2]
+      have hd : dedup l [] = l := by simpa using dedup_nodup l [] (by simpa using hn)
+      simp [deserDict, deserTyped, hasIdent, identAt, List.lookup, ident_set, asList, hh, hd]
   | .callable n b, h => by
       simp only [Representable, Bool.and_eq_true, decide_eq_true_eq] at h
       obtain ⟨⟨hb, hi⟩, hm⟩ := h
@@ -306,24 +288,20 @@ theorem rt_val (env : Env) : ∀ v : PVal, Representable env v = true → RT env
   | .ncallable t, h => by simp [Representable] at h
   | .foreign t, h => by simp [Representable] at h
   | .dict d, h => by
-      simp only [Representable, Bool.and_eq_true, decide_eq_true_eq, Bool.or_eq_true, Bool.not_eq_true',
-        Option.isNone_iff_eq_none] at h
-      obtain ⟨⟨⟨hr, hh⟩, hn⟩, hres⟩ := h
+      simp only [Representable, Bool.and_eq_true, decide_eq_true_eq] at h
+      obtain ⟨⟨hr, hh⟩, hn⟩ := h
       obtain ⟨vj, hv1, hv2⟩ := rt_vals env d hr
-      cases hk : strKeys d with
+      cases hk : plainKeys d with
       | some ks =>
-        have hres' : reservedHit d = false := by
-          cases hres with
-          | inl h0 => simp [hk] at h0
-          | inr h0 => exact h0
+        have hsk := (plainKeys_spec d ks hk).1
         have hlen : ks.length = vj.length := by
-          rw [strKeys_length d ks hk, serV_length d vj hv1]
+          rw [strKeys_length d ks hsk, serV_length d vj hv1]
         refine ⟨.dict (ks.zip vj), by simp [serialize, hk, hv1], ?_⟩
         simp only [deserialize, deserDict]
-        rw [hasIdent_false_of_sdict d ks vj hk hv1 hres' "type" (by simp [reservedKeys]),
-          hasIdent_false_of_sdict d ks vj hk hv1 hres' "class" (by simp [reservedKeys]),
-          hasIdent_false_of_sdict d ks vj hk hv1 hres' "callable" (by simp [reservedKeys])]
-        simp [seqFields_zip env ks vj _ hlen hv2, sdict_rebuild d ks hk]
+        rw [hasIdent_false_of_plain d ks vj hk "type" (by simp [reservedKeys]),
+          hasIdent_false_of_plain d ks vj hk "class" (by simp [reservedKeys]),
+          hasIdent_false_of_plain d ks vj hk "callable" (by simp [reservedKeys])]
+        simp [seqFields_zip env ks vj _ hlen hv2, sdict_rebuild d ks hsk]
       | none =>
         obtain ⟨kj, hk1, hk2⟩ := rt_keys env d hr
         refine ⟨_, by simp [serialize, hk, hk1, hv1]; rfl, ?_⟩
@@ -441,7 +419,7 @@ theorem ser_ok (v : PVal) : Serializable v = true → ∃ j, serialize v = .ok j
       have h' : serzD d = true := by simpa [Serializable] using h
       obtain ⟨kj, hk⟩ := serK_ok d h'
       obtain ⟨vj, hv⟩ := serV_ok d h'
-      cases hs : strKeys d with
+      cases hs : plainKeys d with
       | some ks => exact ⟨_, by simp [serialize, hs, hv]; rfl⟩
       | none => exact ⟨_, by simp [serialize, hs, hk, hv]; rfl⟩
   | .obj c ps => fun h => by
@@ -510,9 +488,9 @@ theorem ser_err (v : PVal) : Serializable v = false → ∃ e, serialize v = .er
       exact ⟨e, by simp [serialize, he], hs⟩
   | .dict d => fun h => by
       have h' : serzD d = false := by simpa [Serializable] using h
-      cases hs : strKeys d with
+      cases hs : plainKeys d with
       | some ks =>
-        obtain ⟨e, he, hse⟩ := serV_err_of_str d ks hs h'
+        obtain ⟨e, he, hse⟩ := serV_err_of_str d ks (plainKeys_spec d ks hs).1 h'
         exact ⟨e, by simp [serialize, hs, he], hse⟩
       | none =>
         cases hk : serK d with
@@ -636,6 +614,60 @@ theorem serV_err_of_keys (d : List (PVal × PVal)) (kj : List J) : serK d = .ok 
         have ht : serzD t = false := by simpa [serzD, hks, hv] using h
         obtain ⟨e, he, hs⟩ := serV_err_of_keys t kj' hkt' ht
         exact ⟨e, by simp [serV, hj, he], hs⟩
+end
+
+
+/-! ### representation invariants + nothing refused = representable -/
+mutual
+theorem wf_ser_repr (env : Env) : ∀ v : PVal, WFval env v = true → Serializable v = true → Representable env v = true
+  | .atom _, _, _ | .frac _, _, _ | .dec _, _, _ => by simp [Representable]
+  | .list l, hw, hs => by
+      simp only [WFval] at hw; simp only [Serializable] at hs
+      simpa [Representable] using wf_ser_reprL env l hw hs
+  | .tuple l, hw, hs => by
+      simp only [WFval] at hw; simp only [Serializable] at hs
+      simpa [Representable] using wf_ser_reprL env l hw hs
+  | .fset l, hw, hs => by
+      simp only [WFval, Bool.and_eq_true] at hw; simp only [Serializable] at hs
+      simp only [Representable, Bool.and_eq_true]
+      exact ⟨⟨wf_ser_reprL env l hw.1.1 hs, hw.1.2⟩, hw.2⟩
+  | .set l, hw, hs => by
+      simp only [WFval, Bool.and_eq_true] at hw; simp only [Serializable] at hs
+      simp only [Representable, Bool.and_eq_true]
+      exact ⟨⟨wf_ser_reprL env l hw.1.1 hs, hw.1.2⟩, hw.2⟩
+  | .dict d, hw, hs => by
+      simp only [WFval, Bool.and_eq_true] at hw; simp only [Serializable] at hs
+      simp only [Representable, Bool.and_eq_true]
+      exact ⟨⟨wf_ser_reprD env d hw.1.1 hs, hw.1.2⟩, hw.2⟩
+  | .obj cls ps, hw, hs => by
+      simp only [WFval, Bool.and_eq_true] at hw; simp only [Serializable] at hs
+      simp only [Representable, Bool.and_eq_true]
+      obtain ⟨⟨⟨⟨⟨h1, h2⟩, h3⟩, h4⟩, h5⟩, h6⟩ := hw
+      exact ⟨⟨⟨⟨⟨h1, h2⟩, wf_ser_reprF env ps h3 hs⟩, h4⟩, h5⟩, h6⟩
+  | .callable n b, hw, hs => by
+      simp only [Serializable] at hs
+      subst hs
+      simpa [WFval, Representable] using hw
+  | .ncallable _, _, hs => by simp [Serializable] at hs
+  | .foreign _, _, hs => by simp [Serializable] at hs
+theorem wf_ser_reprL (env : Env) : ∀ l : List PVal, wfvL env l = true → serzL l = true → reprL env l = true
+  | [], _, _ => rfl
+  | v :: t, hw, hs => by
+      simp only [wfvL, Bool.and_eq_true] at hw; simp only [serzL, Bool.and_eq_true] at hs
+      simp only [reprL, Bool.and_eq_true]
+      exact ⟨wf_ser_repr env v hw.1 hs.1, wf_ser_reprL env t hw.2 hs.2⟩
+theorem wf_ser_reprD (env : Env) : ∀ d : List (PVal × PVal), wfvD env d = true → serzD d = true → reprD env d = true
+  | [], _, _ => rfl
+  | (k, v) :: t, hw, hs => by
+      simp only [wfvD, Bool.and_eq_true] at hw; simp only [serzD, Bool.and_eq_true] at hs
+      simp only [reprD, Bool.and_eq_true]
+      exact ⟨⟨wf_ser_repr env k hw.1.1 hs.1.1, wf_ser_repr env v hw.1.2 hs.1.2⟩, wf_ser_reprD env t hw.2 hs.2⟩
+theorem wf_ser_reprF (env : Env) : ∀ ps : List (String × PVal), wfvF env ps = true → serzF ps = true → reprF env ps = true
+  | [], _, _ => rfl
+  | (_, v) :: t, hw, hs => by
+      simp only [wfvF, Bool.and_eq_true] at hw; simp only [serzF, Bool.and_eq_true] at hs
+      simp only [reprF, Bool.and_eq_true]
+      exact ⟨wf_ser_repr env v hw.1 hs.1, wf_ser_reprF env t hw.2 hs.2⟩
 end
 
 end VL.Persist
